@@ -128,6 +128,8 @@ func runC05(c *Check) {
 	c.keptSetForwarded()
 	c.shownTotalUnclamped()
 	c.cutoffIsMagnitude()
+	c.scoresComparedByMagnitude()
+	c.cutoffFromRawTotal()
 }
 
 // stickyEdgeFlags (R7): the marks of an edge that already exists only move one way when
